@@ -182,6 +182,14 @@ package keeper
 //@ ensures [frame] forall key bytes :: key != types.ConsumerIdToChannelIdKey(c.0) && key != types.ChannelToConsumerIdKey(channelID) && key != types.InitChainHeightKey(c.0) ==> S[key] == old(S[key])
 //@ ensures [no-deps] E == old(E) && X == old(X)
 
+//@ func Keeper.CreateConsumerClient
+//@ let ip := old(k.GetConsumerInitializationParameters(ctx, consumerId))
+//@ ensures [reused-connection-creates-nothing] ip.1 == nil && ip.0.ConnectionId != "" ==> result == nil && S == old(S) && E == old(E) && X == old(X)
+//@ ensures [only-initialized] ip.1 == nil && ip.0.ConnectionId == "" && old(k.GetConsumerPhase(ctx, consumerId)) != types.CONSUMER_PHASE_INITIALIZED ==> result != nil && S == old(S) && E == old(E) && X == old(X)
+//@ ensures [client-bound] result == nil && ip.0.ConnectionId == "" ==> k.GetConsumerClientId(ctx, consumerId).1 && k.GetClientIdToConsumerId(ctx, k.GetConsumerClientId(ctx, consumerId).0).1 && k.GetClientIdToConsumerId(ctx, k.GetConsumerClientId(ctx, consumerId).0).0 == consumerId
+//@ ensures [evidence-min-height] result == nil && ip.0.ConnectionId == "" ==> k.GetEquivocationEvidenceMinHeight(ctx, consumerId) == ip.0.InitialHeight.RevisionHeight
+//@ ensures [failure-binds-nothing] result != nil ==> k.GetConsumerClientId(ctx, consumerId) == old(k.GetConsumerClientId(ctx, consumerId))
+
 //@ func Keeper.MakeConsumerGenesis
 //@ let ip := old(k.GetConsumerInitializationParameters(ctx, consumerId))
 //@ let cl := k.GetConsumerClientId(ctx, consumerId)
